@@ -143,6 +143,15 @@ type FuncCfg struct {
 	Extract *ExtractCfg `json:"extract"`
 	// the function takes the module's heap as its last parameter and returns it beside its result
 	Heap bool `json:"heap"`
+	// a loop over a map whose result depends on the iteration order is translated in ONE order (that of
+	// Gen.Rt.Map.keys / vals / entries: latest insertion first); what it computes is to be read up to that order
+	// (a slice that is a set) — the equivalence theorem has to say so
+	MapOrderCanonical bool `json:"map_order_canonical"`
+	// results of slice type are `Option (List τ)`: `none` = the nil slice (observable by the caller: nil vs empty)
+	NilSlices bool `json:"nil_slices"`
+	// more parameters of the definition (name, Lean type): what a configured reading of a package-level variable
+	// ("vars") or a callee template refers to
+	ExtraParams [][]string `json:"extra_params"`
 }
 
 // ExtractCfg: the nth condition (source order, from 0) of the given kind — "if" or "for" — among the
@@ -476,6 +485,9 @@ func (t *translator) structOf(tp string) *StructCfg {
 }
 
 func (t *translator) leanType(tp string) string {
+	if tp == "errflag" {
+		return "Bool" // the error of a callee of kind "valerr": true = not nil
+	}
 	if l, ok := t.mod.LeanTypes[tp]; ok && strings.HasPrefix(tp, "*") {
 		return l // a pointer type with a configured reading (e.g. an option: the pointer may be nil)
 	}
@@ -1688,6 +1700,13 @@ func (ft *ftrans) applyCallee(c *Callee, recv string, args []ast.Expr, e env, pr
 		return val{s: "(" + term + ")", t: "nonnil"}
 	case "opt":
 		return val{opt: &optres{term: term, types: c.Types}}
+	case "valerr":
+		// (value, error) where the value is meaningful beside a non-nil error too (strconv.Atoi yields 0): the
+		// template is a pair (value, Bool), true = the error is not nil; both are plain values
+		if len(c.Types) != 1 {
+			failf("callee %s: kind valerr needs exactly one type", c.Go)
+		}
+		return val{s: "(" + term + ")", t: "tuple", multi: []string{c.Types[0], "errflag"}}
 	}
 	failf("callee %s: unknown kind %q", c.Go, c.Kind)
 	return val{}
@@ -1709,6 +1728,9 @@ func (ft *ftrans) callFn(g *fn, recv *val, args []ast.Expr, e env, pre *[]prelud
 	}
 	if g.cfg.Heap {
 		failf("a call of %s, a function with a heap, from translated code is outside the subset", g.cfg.Go)
+	}
+	if len(g.cfg.ExtraParams) > 0 {
+		failf("a call of %s, a function with extra parameters, from translated code is outside the subset", g.cfg.Go)
 	}
 	var as []string
 	if recv != nil {
@@ -2382,6 +2404,10 @@ func (ft *ftrans) ret(s *ast.ReturnStmt, e env) node {
 		v := ft.expr(s.Results[i], e, &pre)
 		if v.opt != nil {
 			failf("a multi-valued call as one of several results")
+		}
+		if f.cfg != nil && f.cfg.NilSlices && strings.HasPrefix(ft.t.under(f.results[i]), "[]") {
+			vs = append(vs, ft.nilSliceResult(s.Results[i], v, e))
+			continue
 		}
 		v = ft.coerce(f.results[i], v)
 		vs = append(vs, v.s)
@@ -3813,6 +3839,13 @@ func (t *translator) translateBody(g *fn) {
 	if g.cfg.Fuel {
 		ft.used["fuel"] = true
 	}
+	for _, xp := range g.cfg.ExtraParams {
+		if len(xp) != 2 {
+			failf("extra_params: each entry is [name, Lean type]")
+		}
+		ps = append(ps, "("+xp[0]+" : "+xp[1]+")")
+		ft.used[xp[0]] = true
+	}
 	if g.cfg.Heap {
 		if t.mod.HeapCfg == nil || t.mod.HeapCfg.Type == "" {
 			failf("\"heap\": true, but the module has no heap")
@@ -3826,6 +3859,10 @@ func (t *translator) translateBody(g *fn) {
 	}
 	var rts []string
 	for _, r := range g.results {
+		if g.cfg.NilSlices && strings.HasPrefix(t.under(r), "[]") {
+			rts = append(rts, "Option ("+t.leanType(r)+")")
+			continue
+		}
 		rts = append(rts, t.leanType(r))
 	}
 	for _, i := range g.mutated {
